@@ -37,6 +37,9 @@ func callIntrinsic(i *interpreter, fr *frame, fn *ssa.Function, args []value) (v
 	if ext := externals[name]; ext != nil {
 		return ext(fr, args), true
 	}
+	if r, ok := callAbstract(fn, args); ok {
+		return r, true
+	}
 	if fn.Signature.Recv() == nil && len(fn.TypeArgs()) > 0 || strings.Contains(name, "[") {
 		if k := strings.IndexByte(name, '['); k > 0 {
 			key := name[:k]
@@ -481,8 +484,6 @@ func init() {
 		a, ok := strings.CutSuffix(cstr(args[0]), cstr(args[1]))
 		return tuple{a, ok}
 	}
-	ext["path/filepath.Join"] = func(fr *frame, args []value) value { return filepath.Join(strs(args[0])...) }
-	ext["path.Join"] = func(fr *frame, args []value) value { return path.Join(strs(args[0])...) }
 	ext["path/filepath.Base"] = func(fr *frame, args []value) value { return filepath.Base(cstr(args[0])) }
 	ext["path.Base"] = func(fr *frame, args []value) value { return path.Base(cstr(args[0])) }
 	ext["path/filepath.Dir"] = func(fr *frame, args []value) value { return filepath.Dir(cstr(args[0])) }
